@@ -511,7 +511,7 @@ def _check_ko(ctx, c, reqs, pending):
     if reasons:
         if ok:
             ctx.fail(case, f'key object document accepted although it must be refused: {reasons}', site='ko.ctor/refusal')
-            pending.append((case, ('ok', None), 'ko-skip'))
+            pending.append((case, ('ok', None), 'ko'))
         else:
             pending.append((case, ('err', res[1]), 'ko'))
         return
